@@ -67,3 +67,12 @@ Goal True. idtac "THEOREM C07_transpose_partial". Abort. Print Assumptions C07_t
 Goal True. idtac "THEOREM C07_length_scaling". Abort. Print Assumptions C07_length_scaling.
 Goal True. idtac "THEOREM C07_velocity_scaling". Abort. Print Assumptions C07_velocity_scaling.
 Goal True. idtac "THEOREM C07_velocity_scaling_eig". Abort. Print Assumptions C07_velocity_scaling_eig.
+
+(* the square-root hypothesis of C07_length_scaling holds in the complex instance for real s > 0 *)
+From Coq Require Import Reals.
+From BL Require Base.ROps Base.ROpsFacts.
+Theorem C07_sqrt_scale_in_C : forall (z : Coquelicot.Complex.C) (s : R), (0 < s)%R ->
+  csqrt ROps.ROps (cdiv ROps.ROps z (cmul ROps.ROps (Coquelicot.Complex.RtoC s) (Coquelicot.Complex.RtoC s)))
+  = cdiv ROps.ROps (csqrt ROps.ROps z) (Coquelicot.Complex.RtoC s).
+Proof. exact ROpsFacts.ROps_sqrt_scale. Qed.
+Goal True. idtac "THEOREM C07_sqrt_scale_in_C". Abort. Print Assumptions C07_sqrt_scale_in_C.
